@@ -147,6 +147,10 @@ M = [
  ('scalar-expression-guess-not-repeated', 'sampling_method.py', "                if value.shape[0]==1 and var.is_column() and not var.is_scalar(): value = repmat(value, var.shape[0], 1)\n            # Row vector if vector", "            # Row vector if vector", ['C10']),
  ('parent-constraint-scale-dropped', 'direct_method.py', "            self.opti.subject_to(self.eval_top(stage, c), scale=args[\"scale\"], meta = m)", "            self.opti.subject_to(self.eval_top(stage, c), meta = m)", ['C12']),
  ('array-guess-single-columns', 'sampling_method.py', "                    value_k = value[:,kk*c:(kk+1)*c]", "                    value_k = value[:,kk]", ['C10']),
+ # --- mechanisms repaired after batch 9
+ ('der-ignores-quadrature-states', 'stage.py', "        x = vertcat(self.x, self.xq)\n        xdot = lambda res: vertcat(res[\"ode\"], res[\"quad\"])", "        x = self.x\n        xdot = lambda res: res[\"ode\"]", ['C16']),
+ ('inf-on-quadrature-accepted', 'sampling_method.py', "        if ca.depends_on(c, vertcat(stage.xq, stage.z)):\n", "        if False:\n", ['C15']),
+ ('parent-guess-before-values', 'direct_method.py', "        self.set_parameter(stage, self.opti) # first: guesses may be expressions of the parameters\n        self.set_initial(stage, self.opti, stage._initial)\n", "        self.set_initial(stage, self.opti, stage._initial)\n        self.set_parameter(stage, self.opti)\n", ['C09']),
 ]
 
 def main():
